@@ -11,9 +11,11 @@ package main
 import (
 	"bytes"
 	"fmt"
+	"os"
 	"runtime"
 	"runtime/debug"
 	"time"
+	"unsafe"
 
 	"github.com/lesismal/nbio/mempool"
 
@@ -36,9 +38,10 @@ type ghandle struct {
 }
 
 type gworld struct {
-	a mempool.Allocator
-	h [2]*ghandle
-	v *viol
+	a     mempool.Allocator
+	h     [2]*ghandle
+	v     *viol
+	moved bool // the last Append/Realloc returned another array
 }
 
 func (w *gworld) fail(o op, kind, format string, a ...interface{}) {
@@ -98,7 +101,7 @@ func (w *gworld) same(o op, slot int, self bool, when string) bool {
 	b := *h.p
 	kind := "other-buffer-changed"
 	if self {
-		kind = "wrong-contents"
+		kind = "wrong-contents " + movedStr(w.moved)
 	}
 	if !self && len(b) != h.n {
 		w.fail(o, kind, "%s: handle %d changed length %d -> %d", when, slot, h.n, len(b))
@@ -140,6 +143,7 @@ func (w *gworld) step(idx int, o op) {
 	case 'A', 'S':
 		h := w.h[o.H]
 		data := patBytes(idx, h.n, o.N)
+		oldBase := unsafe.SliceData(*h.p)
 		var np *[]byte
 		if o.K == 'A' {
 			np = w.a.Append(h.p, data...)
@@ -150,6 +154,7 @@ func (w *gworld) step(idx int, o op) {
 			w.fail(o, "wrong-length", "%s(+%d) on length %d returned nil or a wrong length", o.name(), o.N, h.n)
 			return
 		}
+		w.moved = unsafe.SliceData(*np) != oldBase
 		h.p = np
 		h.wins = append(h.wins, win{h.n, data})
 		h.n += o.N
@@ -160,11 +165,13 @@ func (w *gworld) step(idx int, o op) {
 	case 'R':
 		h := w.h[o.H]
 		old := h.n
+		oldBase := unsafe.SliceData(*h.p)
 		np := w.a.Realloc(h.p, o.N)
 		if np == nil || len(*np) != o.N {
 			w.fail(o, "wrong-length", "Realloc(len %d -> %d) returned nil or a wrong length", old, o.N)
 			return
 		}
+		w.moved = unsafe.SliceData(*np) != oldBase
 		h.p = np
 		if o.N < old {
 			h.cut(o.N)
@@ -272,7 +279,11 @@ func giant(tier string, sh *vkit.Shard, p *vkit.Part, deadline time.Time) {
 			for len(stack) > 0 {
 				pre := stack[len(stack)-1]
 				stack = stack[:len(stack)-1]
+				t0 := time.Now()
 				v, ch := executeGiant(prog, pre)
+				if os.Getenv("VERIF_C20_TIMING") != "" {
+					fmt.Fprintf(os.Stderr, "giant %-28s miss=%v %v\n", progString(prog), pre, time.Since(t0).Round(time.Millisecond))
+				}
 				for i := len(ch) - 1; i >= len(pre); i-- {
 					stack = append(stack, append(append([]int(nil), ch[:i]...), 1))
 				}
